@@ -44,6 +44,7 @@ type pathWalker struct {
 	oob          bool            // a slice expression evaluated out of range
 	beyondLen    bool            // a reslice beyond len (within cap) was seen
 	maxSteps     int
+	onSlice      func(w *pathWalker, sl *ssa.Slice)
 }
 
 // walk follows the path from block b (entered from pred, may be nil). It
@@ -66,16 +67,29 @@ func (w *pathWalker) walk(b, pred *ssa.BasicBlock) string {
 					idx = i
 				}
 			}
+			// parallel assignment: all incoming values are evaluated with the
+			// bindings of the previous iteration before any phi is rebound
+			type upd struct {
+				ph *ssa.Phi
+				n  int64
+				ok bool
+			}
+			var upds []upd
 			for _, in := range b.Instrs {
 				ph, ok := in.(*ssa.Phi)
 				if !ok {
 					break
 				}
-				delete(w.env.vals, ph)
+				u := upd{ph: ph}
 				if idx >= 0 {
-					if n, ok := w.env.eval(ph.Edges[idx]); ok {
-						w.env.bind(ph, n)
-					}
+					u.n, u.ok = w.evalNoPhi(ph.Edges[idx])
+				}
+				upds = append(upds, u)
+			}
+			for _, u := range upds {
+				delete(w.env.vals, u.ph)
+				if u.ok {
+					w.env.bind(u.ph, u.n)
 				}
 			}
 		}
@@ -119,6 +133,9 @@ func (w *pathWalker) walk(b, pred *ssa.BasicBlock) string {
 						w.env.bind(x, n)
 					} else {
 						delete(w.env.vals, x)
+					}
+					if w.onSlice != nil {
+						w.onSlice(w, x)
 					}
 				}
 			case ssa.CallInstruction:
@@ -176,6 +193,8 @@ func (w *pathWalker) walk(b, pred *ssa.BasicBlock) string {
 }
 
 func (w *pathWalker) trackAll(string) bool { return false }
+
+func (w *pathWalker) evalNoPhi(v ssa.Value) (int64, bool) { return w.env.eval(v) }
 
 // sliceLen: the length of the result of a slice expression when slices are
 // represented by their lengths (w.lengths): high - low, with the operand's
